@@ -259,13 +259,23 @@ func (c *svcEndpointDiscoveryClient) SetHook(hook svcEndpointHook) {
 	c.hook = hook
 }
 
+// subscriptionChange is a change of the subscribed set that has not been sent yet.
+type subscriptionChange struct {
+	svcName   string
+	subscribe bool
+}
+
 type svcDiscoveryClient struct {
 	sync.RWMutex
 	scope string
 
 	subscribed map[string]struct{}
-	subCh      chan string
-	unsubCh    chan string
+	// changes which have not been sent on the current stream yet, oldest first.
+	// It is unbounded on purpose: callers must never block, whether a stream
+	// exists or not.
+	pending []subscriptionChange
+	// notify wakes up the send loop after pending has grown.
+	notify chan struct{}
 
 	newStream svcDiscoveryStreamMaker
 }
@@ -274,8 +284,7 @@ func newSvcDiscoveryClient(scope string, streamMaker svcDiscoveryStreamMaker) *s
 	return &svcDiscoveryClient{
 		scope:      scope,
 		subscribed: make(map[string]struct{}, 16),
-		subCh:      make(chan string, 16),
-		unsubCh:    make(chan string, 16),
+		notify:     make(chan struct{}, 1),
 		newStream:  streamMaker,
 	}
 }
@@ -288,7 +297,7 @@ func (c *svcDiscoveryClient) Subscribe(svcName string) {
 		return
 	}
 	c.subscribed[svcName] = struct{}{}
-	c.subCh <- svcName
+	c.addPendingLocked(svcName, true)
 }
 
 func (c *svcDiscoveryClient) Unsubscribe(svcName string) {
@@ -299,7 +308,32 @@ func (c *svcDiscoveryClient) Unsubscribe(svcName string) {
 		return
 	}
 	delete(c.subscribed, svcName)
-	c.unsubCh <- svcName
+	c.addPendingLocked(svcName, false)
+}
+
+func (c *svcDiscoveryClient) addPendingLocked(svcName string, subscribe bool) {
+	c.pending = append(c.pending, subscriptionChange{svcName, subscribe})
+	select {
+	case c.notify <- struct{}{}:
+	default:
+	}
+}
+
+// takePending returns the changes which have not been sent yet.
+func (c *svcDiscoveryClient) takePending() (subscribed, unsubscribed []string) {
+	c.Lock()
+	pending := c.pending
+	c.pending = nil
+	c.Unlock()
+
+	for _, change := range pending {
+		if change.subscribe {
+			subscribed = append(subscribed, change.svcName)
+		} else {
+			unsubscribed = append(unsubscribed, change.svcName)
+		}
+	}
+	return
 }
 
 func (c *svcDiscoveryClient) Run(ctx context.Context) {
@@ -350,16 +384,15 @@ func (c *svcDiscoveryClient) run(ctx context.Context) {
 }
 
 func (c *svcDiscoveryClient) resubscribe(stream svcDiscoveryStream) error {
-	c.RLock()
+	c.Lock()
 	// load all subscribed services.
 	svcNames := make([]string, 0, len(c.subscribed))
 	for svcName := range c.subscribed {
 		svcNames = append(svcNames, svcName)
 	}
-	// clean sub/unsub channel
-	c.cleanSubChLocked()
-	c.cleanUnsubChLocked()
-	c.RUnlock()
+	// the changes made so far are covered by the snapshot.
+	c.pending = nil
+	c.Unlock()
 
 	// skip if no subscribed services.
 	if len(svcNames) == 0 {
@@ -367,26 +400,6 @@ func (c *svcDiscoveryClient) resubscribe(stream svcDiscoveryStream) error {
 	}
 
 	return stream.Send(svcNames, nil)
-}
-
-func (c *svcDiscoveryClient) cleanSubChLocked() {
-	for {
-		select {
-		case <-c.subCh:
-		default:
-			return
-		}
-	}
-}
-
-func (c *svcDiscoveryClient) cleanUnsubChLocked() {
-	for {
-		select {
-		case <-c.unsubCh:
-		default:
-			return
-		}
-	}
 }
 
 func (c *svcDiscoveryClient) loopRecv(stream svcDiscoveryStream) {
@@ -400,31 +413,18 @@ func (c *svcDiscoveryClient) loopRecv(stream svcDiscoveryStream) {
 
 func (c *svcDiscoveryClient) loopSend(stream svcDiscoveryStream, stop <-chan struct{}) {
 	for {
-		var subscribed, unsubscribed []string
 		select {
-		case svcName := <-c.subCh:
-			subscribed = append(subscribed, svcName)
-		case svcName := <-c.unsubCh:
-			unsubscribed = append(unsubscribed, svcName)
+		case <-c.notify:
 		case <-stop:
 			return
 		}
 
 		// batch
-		for {
-			select {
-			case svcName := <-c.subCh:
-				subscribed = append(subscribed, svcName)
-			case svcName := <-c.unsubCh:
-				unsubscribed = append(unsubscribed, svcName)
-			case <-stop:
-				return
-			default:
-				goto SEND
-			}
+		subscribed, unsubscribed := c.takePending()
+		if len(subscribed) == 0 && len(unsubscribed) == 0 {
+			continue
 		}
 
-	SEND:
 		err := stream.Send(subscribed, unsubscribed)
 		if err != nil {
 			logger.Warnf("Send to service %s discovery stream failed: %v", c.scope, err)
